@@ -5,6 +5,7 @@ import FeatModel.Lemmas.C19_blk
 import FeatModel.Lemmas.C19_cm
 import FeatModel.Lemmas.C19_cmexact
 import FeatModel.Lemmas.C19_cmroot
+import FeatModel.Lemmas.C19_cmuniq
 import FeatModel.Lemmas.C19_colk
 import FeatModel.Lemmas.C19_color
 import FeatModel.Lemmas.C19_color2
@@ -15,16 +16,21 @@ import FeatModel.Lemmas.C19_layers
 import FeatModel.Lemmas.C19_mask
 import FeatModel.Lemmas.C19_perms
 import FeatModel.Lemmas.C19_perms2
+import FeatModel.Lemmas.C19_perms3
 import FeatModel.Lemmas.C19_renders
 import FeatModel.Lemmas.C19_rowk
 import FeatModel.Lemmas.C19_walk
+import FeatModel.Lemmas.C19_wf
 /-! # C19 — property theorems (statements only; proofs live in Lemmas/C19_*.lean)
 
 Remaining hypotheses of the C19 theorems and why they stay (everything else was removed or turned into a conclusion):
-* `g.wf = true` (all image indices < `nImg`): class invariant of `Adjacency::Graph` that no constructor checks (Copy-Array /
-  Copy-Vector copy what they get); the kernels index `idx_mask[*it]`, `_domain_ptr[*it + 1]`, `image_ptr[*it]` with the
-  indices, so without it the C++ is undefined behaviour. `permuteIndices_spec` needs no hypothesis: an out-of-range index is
-  part of its guard (`_perm_pos.at` throws).
+* `g.wf = true` (all image indices < `nImg`): class invariant of `Adjacency::Graph`. It is ESTABLISHED by every operation
+  of the model that produces a graph (`render_wf`, `renderComposite_wf`, `permuted_wf`, `permuteIndices_wf`,
+  `partitionGraph_wf`, `dynGraph_wf`, `C19L.walk.compose_wf`), so it only has to hold for graphs that enter through the
+  Copy-Array / Copy-Vector constructors, which copy what they get without any assertion: there it is a caller obligation
+  (the kernels index `idx_mask[*it]`, `_domain_ptr[*it + 1]`, `image_ptr[*it]` with the indices; undefined behaviour
+  otherwise). The driver EVALUATES `g.wf` on every input graph (an ill-formed one is rejected as `BAD-OP`), so every
+  model output compared with the implementation is covered by the theorems. `permuteIndices_spec` needs no hypothesis.
 * `g.nImg = g.nDom`: `Coloring(graph)` and `CuthillMcKee::compute` take a node-to-node graph (both index node arrays with
   image indices).
 * `hsym` (`coloring_proper`, `coloringOrdered_proper`): coloring.hpp documents "adjacent nodes do not have the same color"
@@ -37,6 +43,9 @@ Remaining hypotheses of the C19 theorems and why they stay (everything else was 
   documented as a permutation array.
 * `A.Lawful`, `A.toGraph.wf`: hold for every adjactor the driver builds (`adjactor_ofGraph_spec`,
   `adjactor_composite_spec`, `C19L.walk.compose_wf`).
+* Permutation constructor types: identity `identity_ctor_spec`, perm `swap_perm_agree` + `swapFromPerm_terminates`, swap
+  `swap_ctor_spec`, inv_perm `invPerm_ctor_spec` + `invPerm_spec`, inv_swap `invSwap_ctor_is_inverse` (inverse of the swap
+  constructor for EVERY swap array), random `random_ctor_bijection`; `none` leaves both arrays uninitialised (nothing to state).
 * `hn : 0 < g.nDom` (Cuthill-McKee): `cm_empty_aborts` shows the other case aborts (`Permutation(0)`); logically implied by
   `compute = some _` where that is a hypothesis.
 * sortedness of `DynGraph` rows: `std::set` invariant, established by `empty` and preserved by every operation
@@ -118,6 +127,20 @@ Per theorem (hypothesis binders as written below):
 * `walk_is_walkM`: none
 * `walkTag_narrow_fails`: h, hv, hm
 * `walkTag_wide_ok`: hA, hw, hm, hr
+* `identity_ctor_spec`: hx
+* `swap_ctor_spec`: hs, hx
+* `invSwap_ctor_is_inverse`: hs
+* `invPerm_ctor_spec`: h
+* `render_wf`: hwf, h
+* `renderComposite_wf`: hb, h
+* `permuted_wf`: hwf, hip
+* `permuteIndices_wf`: hwf, hp
+* `partitionGraph_wf`: none
+* `dynGraph_wf`: hA, hwf
+* `cm_root_unique`: h1, h2
+* `cm_chain_unique`: h1, h2
+* `cm_components_unique`: h1, h2, hl
+* `cm_ordering_unique`: h1, h2
 -/
 open FeatModel.Adj
 
@@ -479,3 +502,68 @@ theorem C19.walkTag_wide_ok {σ : Type} (w : Nat) (A : Adjactor) (hA : A.Lawful)
     (hr : ∀ v, v ∈ A.images i → v < m.size) :
     (Kern.walkTag w A i f (s, m)).1 = (Graph.dedup (A.images i)).foldl f s :=
   C19L.mask.walkTag_wide_ok w A hA i hw f s m hm hr
+
+theorem C19.identity_ctor_spec {α : Type} [Inhabited α] (n : Nat) (x : Array α) (hx : x.size = n) :
+    Perm.construct 1 (List.replicate n 0) = some ⟨List.range n, List.range n⟩ ∧
+    Perm.applySwaps (List.range n) x = x ∧ Perm.applySwapsInv (List.range n) x = x ∧
+    Perm.applyPerm (List.range n) x.toList = x.toList ∧ Perm.isBijection (List.range n) = true :=
+  C19L.perms3.identity_ctor_spec n x hx
+
+theorem C19.swap_ctor_spec {α : Type} [Inhabited α] (s : List Nat)
+    (hs : ∀ i, i < s.length → i ≤ s.getD i 0 ∧ s.getD i 0 < s.length) (x : Array α) (hx : x.size = s.length) :
+    Perm.construct 3 s = some ⟨Perm.permFromSwap s, s⟩ ∧ Perm.isBijection (Perm.permFromSwap s) = true ∧
+    (Perm.applySwaps s x).toList = Perm.applyPerm (Perm.permFromSwap s) x.toList :=
+  C19L.perms3.swap_ctor_spec s hs x hx
+
+theorem C19.invSwap_ctor_is_inverse (s : List Nat)
+    (hs : ∀ i, i < s.length → i ≤ s.getD i 0 ∧ s.getD i 0 < s.length) :
+    Perm.permFromInvSwap s = Perm.invPerm (Perm.permFromSwap s) ∧
+    Perm.isBijection (Perm.permFromInvSwap s) = true ∧
+    (∀ i, i < s.length → (Perm.permFromInvSwap s).getD ((Perm.permFromSwap s).getD i 0) 0 = i) ∧
+    (∀ i, i < s.length → (Perm.permFromSwap s).getD ((Perm.permFromInvSwap s).getD i 0) 0 = i) :=
+  C19L.perms3.invSwap_ctor_is_inverse s hs
+
+theorem C19.invPerm_ctor_spec (v : List Nat) (h : Perm.isBijection v = true) :
+    ∃ sw, Perm.construct 4 v = some ⟨Perm.invPerm v, sw⟩ ∧ Perm.isBijection (Perm.invPerm v) = true ∧
+      Perm.swapFromPerm (Perm.invPerm v) = some sw :=
+  C19L.perms3.invPerm_ctor_spec v h
+
+theorem C19.render_wf (rt : Nat) (g r : Graph) (hwf : g.wf = true) (h : g.render rt = some r) : r.wf = true :=
+  C19L.wf.render_wf rt g r hwf h
+
+theorem C19.renderComposite_wf (rt : Nat) (a b r : Graph) (hb : b.wf = true)
+    (h : Graph.renderComposite rt a b = some r) : r.wf = true :=
+  C19L.wf.renderComposite_wf rt a b r hb h
+
+theorem C19.permuted_wf (g : Graph) (dp ip : List Nat) (hwf : g.wf = true)
+    (hip : ∀ k, k < g.nImg → ip.getD k 0 < g.nImg) : (g.permuted dp ip).wf = true :=
+  C19L.wf.permuted_wf g dp ip hwf hip
+
+theorem C19.permuteIndices_wf (g : Graph) (p : List Nat) (hwf : g.wf = true) (hp : ∀ k, k < g.nImg → p.getD k 0 < g.nImg) :
+    ({ g with adj := g.adj.map fun l => l.map fun k => p.getD k 0 } : Graph).wf = true :=
+  C19L.wf.permuteIndices_wf g p hwf hp
+
+theorem C19.partitionGraph_wf (nc : Nat) (col : List Nat) : (Coloring.partitionGraph nc col).wf = true :=
+  C19L.wf.partitionGraph_wf nc col
+
+theorem C19.dynGraph_wf (A : Adjactor) (hA : A.Lawful) (hwf : A.toGraph.wf = true) (tr : Bool) :
+    (DynGraph.ofAdjactor A tr).toGraph.wf = true :=
+  C19L.wf.dynGraph_wf A hA hwf tr
+
+theorem C19.cm_root_unique (g : Graph) (rt : CM.RootType) (seen : List Nat) (r1 r2 : Nat)
+    (h1 : CM.IsDocumentedRoot g rt seen r1) (h2 : CM.IsDocumentedRoot g rt seen r2) : r1 = r2 :=
+  C19L.cmuniq.cm_root_unique g rt seen r1 r2 h1 h2
+
+theorem C19.cm_chain_unique (g : Graph) (st : CM.SortType) (seen lv : List Nat) (c1 c2 : List (List Nat))
+    (h1 : CM.IsLevelChainExact g st seen lv c1) (h2 : CM.IsLevelChainExact g st seen lv c2) : c1 = c2 :=
+  C19L.cmuniq.cm_chain_unique g st seen lv c1 c2 h1 h2
+
+theorem C19.cm_components_unique (g : Graph) (rt : CM.RootType) (st : CM.SortType) (seen : List Nat)
+    (c1 c2 : List (List (List Nat))) (h1 : CM.AreCmComponents g rt st seen c1) (h2 : CM.AreCmComponents g rt st seen c2)
+    (hl : c1.flatten.flatten.length = c2.flatten.flatten.length) : c1 = c2 :=
+  C19L.cmuniq.cm_components_unique g rt st seen c1 c2 h1 h2 hl
+
+theorem C19.cm_ordering_unique (g : Graph) (rev : Bool) (rt : CM.RootType) (st : CM.SortType)
+    (p1 l1 p2 l2 : List Nat) (h1 : CM.IsCmOrdering g rev rt st p1 l1) (h2 : CM.IsCmOrdering g rev rt st p2 l2) :
+    p1 = p2 ∧ l1 = l2 :=
+  C19L.cmuniq.cm_ordering_unique g rev rt st p1 l1 p2 l2 h1 h2
